@@ -5,6 +5,7 @@ import (
 	"fmt"
 	"io"
 	"os"
+	"sync"
 
 	"github.com/go-git/go-billy/v5"
 	"github.com/go-git/go-billy/v5/util"
@@ -16,6 +17,10 @@ type PersistedClock struct {
 	*MemClock
 	root     billy.Filesystem
 	filePath string
+
+	// serialize the updates of the clock with the write of its file, so that the file
+	// always ends up holding the latest value
+	mu sync.Mutex
 }
 
 // NewPersistedClock create a new persisted Lamport clock
@@ -51,6 +56,9 @@ func LoadPersistedClock(root billy.Filesystem, filePath string) (*PersistedClock
 
 // Increment is used to return the value of the lamport clock and increment it afterwards
 func (pc *PersistedClock) Increment() (Time, error) {
+	pc.mu.Lock()
+	defer pc.mu.Unlock()
+
 	time, err := pc.MemClock.Increment()
 	if err != nil {
 		return 0, err
@@ -61,6 +69,9 @@ func (pc *PersistedClock) Increment() (Time, error) {
 // Witness is called to update our local clock if necessary after
 // witnessing a clock value received from another process
 func (pc *PersistedClock) Witness(time Time) error {
+	pc.mu.Lock()
+	defer pc.mu.Unlock()
+
 	// TODO: rework so that we write only when the clock was actually updated
 	err := pc.MemClock.Witness(time)
 	if err != nil {
